@@ -484,6 +484,41 @@ def find_loops(toks):
     return res
 
 
+def desugar_zip_index(body, rules):
+    """R18: `for ( A , I ) in X . iter ( ) . cloned ( ) . zip ( 0 .. ) { B }` (X a path) is rendered
+    `let mut I = 0 ; for __zk in 0 .. X . len ( ) { let A = X [ __zk ] ; B I += 1 ; }`: the zipped iterator yields
+    (X[k], k) for k = 0 .. X.len(), the body is copied token for token (Verus rejects the iterator adapters)."""
+    out = list(body)
+    i = 0
+    while i < len(out):
+        if out[i].k == "id" and out[i].s == "for" and i + 6 < len(out) and out[i + 1].s == "(" and out[i + 3].s == "," and out[i + 5].s == ")" \
+                and out[i + 6].s == "in" and out[i + 2].k == "id" and out[i + 4].k == "id":
+            a_name, i_name = out[i + 2].s, out[i + 4].s
+            j = i + 7
+            path = []
+            while j < len(out) and (out[j].k == "id" or out[j].s == "::") and out[j].s != "iter":
+                path.append(out[j])
+                j += 1
+            tail = [x.s for x in out[j:j + 15]]
+            want = [".", "iter", "(", ")", ".", "cloned", "(", ")", ".", "zip", "(", "0", "..", ")", "{"]
+            if path and path[-1].s != "." and tail == want:
+                bopen = j + 14
+                bclose = match_close(out, bopen)
+                def T(k, s_):
+                    return Tok(k, s_, out[i].a, out[i].b)
+                pre = [T("id", "let"), T("id", "mut"), T("id", i_name), T("p", "="), T("num", "0"), T("p", ";"),
+                       T("id", "for"), T("id", "__zk"), T("id", "in"), T("num", "0"), T("p", "..")] + path + \
+                      [T("p", "."), T("id", "len"), T("p", "("), T("p", ")"), T("p", "{"),
+                       T("id", "let"), T("id", a_name), T("p", "=")] + path + [T("p", "["), T("id", "__zk"), T("p", "]"), T("p", ";")]
+                post = [T("id", i_name), T("p", "+="), T("num", "1"), T("p", ";")]
+                out = out[:i] + pre + out[bopen + 1:bclose] + post + out[bclose:]
+                rules.fired.add("R18")
+                i += len(pre)
+                continue
+        i += 1
+    return out
+
+
 def drop_unused_rev(body, rules):
     """R16: `for _x in ( <lo> .. <hi> ) . rev ( ) {` -> `for _x in <lo> .. <hi> {` when the loop variable starts with `_`
     and does not occur in the loop body: the reversed range yields the same number of values and nothing observes their
@@ -717,6 +752,7 @@ def render_fn(idx, fs, table, ctx):
         return "#[verifier::external_body]\n" + sig_txt + contract + "\n{ unimplemented!() }\n"
     body = toks[it.tb + 1:it.t1]
     body = drop_unused_rev(body, rules)
+    body = desugar_zip_index(body, rules)
     # loop invariants and anchored hints are inserted by token position
     inserts = {}
     if fs.loops:
@@ -1070,6 +1106,10 @@ def render_unit(idx, tmpl_path, root, must_fail=False, params=None):
                     if depth == 1 and x in ("{", ",") and k2 + 1 < len(strs) and strs[k2 + 1] not in ("pub", "}"):
                         res.append("pub")
                 strs = res
+            if m.group(2) == "const":
+                # R19: a module-level const table is an `exec const` for Verus (mode annotation only; initialiser verbatim)
+                k0 = strs.index("const")
+                strs = ["pub", "exec"] + strs[k0:]
             if m.group(2) == "enum" and strs and strs[0] == "enum":
                 strs = ["pub"] + strs          # R5: visibility only (a private enum named in a re-declared trait's contract)
             out.extend(emit(strs).split("\n"))
